@@ -8,7 +8,9 @@ use crate::{
     CompilationError, VecErr,
 };
 
-use super::{new_err, Callable, Compile, FunctionArguments, TypeLayout};
+use super::{
+    new_err, Callable, Compile, Dependencies, Dependency, FunctionArguments, TypeLayout,
+};
 
 #[derive(Debug)]
 pub(crate) enum DotLookupOption {
@@ -30,6 +32,19 @@ pub(crate) struct DotLookup<'a> {
 #[derive(Debug)]
 pub(crate) struct DotChain {
     links: Vec<DotLookupOption>,
+}
+
+impl Dependencies for DotChain {
+    /// The arguments of the method calls along the chain can mention outside variables too.
+    fn dependencies(&self) -> Vec<Dependency> {
+        self.links
+            .iter()
+            .flat_map(|link| match link {
+                DotLookupOption::FunctionCall { arguments, .. } => arguments.net_dependencies(),
+                DotLookupOption::Name { .. } => vec![],
+            })
+            .collect()
+    }
 }
 
 impl Compile for DotLookupOption {
